@@ -424,3 +424,37 @@ func ZZ_C02_redirect_as_sent() {
 		zz.Assert(rp != sp.sent, "the redirect_uri exactly as sent redeems the code")
 	}
 }
+
+// ZZ_C02_reconfigured: the authorization-code lifetime is CHANGED between the issuance of two codes on one
+// provider: each code is redeemable until the lifetime in force at ITS issuance has passed - the second code
+// knows nothing of the first lifetime, the first keeps its own.
+func ZZ_C02_reconfigured() {
+	l1 := time.Duration(zz.Int("life1.s", 30, 1200)) * time.Second
+	l2 := time.Duration(zz.Int("life2.s", 30, 1200)) * time.Second
+	wd := world.New(world.Options{Tweak: func(cfg *fosite.Config) { cfg.AuthorizeCodeLifespan = l1 }})
+	issue := func(client string) string {
+		form := url.Values{"client_id": {client}, "response_type": {"code"}, "redirect_uri": {"https://" + client + ".example/cb"},
+			"scope": {"offline photos"}, "state": {"state-0123456789"}}
+		code, err := wd.AuthorizeGrant(form, "peter", []string{"offline"}, nil)
+		zz.Assume(err == nil && code != "")
+		return code
+	}
+	code1 := issue("c1")
+	wd.Cfg.AuthorizeCodeLifespan = l2
+	code2 := issue("c2")
+	d := time.Duration(zz.Int("advance", 0, int64(25*time.Minute)))
+	for _, l := range []time.Duration{l1, l2} {
+		zz.Assume(zz.Or(d < l-3*time.Second, d > l+3*time.Second))
+	}
+	zz.Advance(d)
+	which := zz.Choice("redeemed", 2)
+	code, l, client, secret := code1, l1, "c1", world.Secret1
+	if which == 1 {
+		code, l, client, secret = code2, l2, "c2", world.Secret2
+	}
+	_, err := wd.TokenAs(client, secret, url.Values{"grant_type": {"authorization_code"}, "code": {code}, "redirect_uri": {"https://" + client + ".example/cb"}})
+	zz.Observe("redeem.err", world.ErrName(err))
+	zz.Assert((err == nil) == (d < l), "reconfigured: a code is redeemable exactly until the lifetime in force at ITS issuance has passed")
+	zz.Cover("reconfigured:lifetime-shortened", l2 < l1)
+	zz.Cover("reconfigured:lifetime-extended", l2 > l1)
+}
